@@ -105,7 +105,7 @@ def make_stream(name, seed, tier):
     if name == "contract":
         return list(gen.stream_contract(seed, n, max_obj=5 if tier == "quick" else 7, max_mix=10 if tier == "quick" else 24))
     if name == "contract_full":
-        return list(gen.stream_contract(seed + 17, n, unrecorded_p=0.0))
+        return list(gen.stream_contract(seed + 17, n, max_obj=6, unrecorded_p=0.0))
     if name == "weakheavy":
         return list(gen.stream_contract(seed + 31, n, max_obj=4, max_mix=14))
     if name == "raw":
@@ -416,7 +416,7 @@ def layout_check(cases, seed):
     bad = []
     n = 0
     env_backup = os.environ.get("HEXEC_PERTURB")
-    for pert in (1, 2, 3):
+    for pert in (1, 2, 3, 4, 5, 6):
         os.environ["HEXEC_PERTURB"] = str(seed * 7 + pert)
         other = engine.run_harness([(r.name, r.explicit) for r in base], "cactus")
         for r in base:
@@ -613,7 +613,7 @@ def main():
         if rc != 0 or not line.startswith("ok"):
             extra_fail.append(("oracle", None, "O11:" + line, [line]))
     if cfg.get("layout"):
-        cases = make_stream("contract_full", seed, tier)[: (600 if tier == "quick" else 8000)]
+        cases = make_stream("contract_full", seed, tier)[: (800 if tier == "quick" else 8000)]
         base, n, bad = layout_check(cases, seed)
         extra_cov["layout_replays"] = n
         for r, i, msg in bad:
